@@ -713,11 +713,14 @@ func GetAPSource(val *fastjson.Value) Source {
 		return s
 	}
 
-	if contBytes := val.Get("source", "content").GetStringBytes(); len(contBytes) > 0 {
-		s.Content.UnmarshalJSON(contBytes)
-	}
-	if mimeBytes := val.Get("source", "mediaType").GetStringBytes(); len(mimeBytes) > 0 {
-		s.MediaType.UnmarshalJSON(mimeBytes)
+	if src := val.Get("source"); src != nil {
+		// NOTE(marius): the values are the string bytes the parser decoded, they must not be parsed again
+		if cont := JSONGetNaturalLanguageField(src, "content"); len(cont) > 0 {
+			s.Content = cont
+		}
+		if mimeBytes := src.GetStringBytes("mediaType"); len(mimeBytes) > 0 {
+			s.MediaType = MimeType(mimeBytes)
+		}
 	}
 
 	return s
